@@ -14,5 +14,9 @@ func Main() {
 	r.Assume("the simulator delivers to a node only through its real receive loop; gossip emulation offers what real reactors send (state-based, maj23 exchange), adversary < 1/3 of the power")
 	r.Cases("attack", len(netsim.Attacks)*len(netsim.AttackCfgs()), core.Opts{Procs: 16, StallSec: 300}, func(c *core.Case) { netsim.AttackCase(c, "C04") })
 	r.Cases("random", r.N(400, 8000), core.Opts{Procs: 16, StallSec: 300}, func(c *core.Case) { netsim.RandomCase(c, "C04", 7, 400) })
+	if !r.Quick() {
+		// E-live: real reactors, switches and tickers (no race instrumentation here; C03's thorough tier runs it under -race)
+		r.Cases("live", 6, core.Opts{Procs: 3, StallSec: 1500, InconclusiveFatal: []string{"lib/p2p.Connect2Switches"}}, func(c *core.Case) { netsim.LiveCase(c, "C04") })
+	}
 	r.Finish()
 }
